@@ -35,7 +35,7 @@ COMPONENTS = {"real": ["clustering/kmeans.py (KMeans.fit, kmeansplusplus_centers
               "stub": ["multiprocessing.Pool -> sim/simpool.py (seeded pool size, chunking, completion order; pickling isolation)",
                        "np.random / random seeds (owned by the simulator)", "monitor_distances callback (environment: cancels at a seeded iteration)",
                        "reference DTW for the nearest-mean oracle: sim/models/dtw_ref.py"]}
-ASSUMPTIONS = ["bounds: mostly k 1..5, n = k+1..12 series of length 2..8 (one history in 16: k 4..8, n up to 25, length <= 13, max_it <= 9), ndim 1..2, max_it 0..5, max_dba_it 1..3, thr in {default, 1e-4, 0.05, 0.5, 2}, data amplitude in {1, 1e-3, 1e-4}",
+ASSUMPTIONS = ["bounds: mostly k 1..5, n = k+1..12 series of length 2..8 (one history in 10: k 4..8, n up to 25, length <= 13, max_it <= 9), ndim 1..2, max_it 0..5, max_dba_it 1..3, thr in {default, 1e-4, 0.05, 0.5, 2}, data amplitude in {1, 1e-3, 1e-4}",
                "empty clusters in the returned dict are allowed (with fewer distinct series than k they are unavoidable); keys must still be exactly 0..k-1",
                "nearest-mean comparison uses rel. tol 1e-9 on the reference distances; serial vs parallel comparison is exact (float bits)"]
 
@@ -46,7 +46,7 @@ def gen_history(st):
     ndim = rng.below(5) == 0
     data = []
     kmax = 1
-    big = rng.below(16) == 0          # swarm sizing: one history in 16 is larger (more series, larger k, longer series, more iterations)
+    big = rng.below(10) == 0          # swarm sizing: one history in 10 is larger (more series, larger k, longer series, more iterations)
     for _ in range(ndata):
         k = 4 + rng.below(5) if big else 1 + rng.below(5)
         kmax = max(kmax, k)
